@@ -125,6 +125,10 @@ def real_sweep(ctx, n_cases, n_special):
             case = {"sources": [a, b],
                     "sensors": [{"pos": [[0.0, 0.0, 0.0]], "rot": [[0.0, 0.0, 0.0]], "pixel": lr.inside_point(ctx.rng, b), "left": False}]}
             check_real(ctx, case, "last-group-of-one")
+    # rows of one group in different parameter regions of the class's dispatch (heterogeneous masks)
+    for i in range(max(30, n_cases // 2)):
+        cls = lr.HETERO_CLASSES[i % len(lr.HETERO_CLASSES)] if i % 3 else "CylinderSegment"
+        check_real(ctx, lr.g_hetero_case(ctx.rng, cls), "hetero-dispatch")
     # large field ratios inside one vectorised group, strong source before and after the weak ones
     for i in range(max(8, n_cases // 4)):
         cls = ("Polyline", "Polyline", "TriangularMesh")[i % 3]
